@@ -35,6 +35,10 @@ CHECKS = {
    text="HedRules.tla gives, for an abstract annotation tree (groups + 10 tag kinds) and text damage, the set of rule instances it violates, phase by phase (text checks, per-tag checks, group/whole-string checks incl. tag-group/top-level placement, Delay pairing, unique, repeated tag/group up to order, Onset/Inset/Offset and Duration/Delay group shape). TLC enumerates every tree <= 3 nodes x 4 text damages (7880; <= 4 nodes = 130k in thorough) plus deep trees <= 6 nodes sampled by simulating the growth grammar, with their verdicts; each is concretised for all 11 bundled schemas by rotation over the whole vocabulary (all plain tags x spellings, all value-taking tags, 12 per-tag flaw kinds) and validated by the real code with placeholders allowed and disallowed: clean => no error; exactly one violated rule instance => its specification code is reported",
    note="bounded tree size; Definition groups and Def-expand alteration are decided in C09; multi-violation trees compared for information only",
    technique="TLA+ spec + TLC enumeration/simulation; exhaustive case replay at vocabulary scale"),
+ "C04": dict(
+   text="TLC checks on HedRewrite.tla that the verdict of HedRules.tla is invariant under exchanging sibling leaves and exchanging a leaf with a sibling group for every tree <= 4 nodes (respelling/respacing are identity on the model); every tree TLC enumerates (<= 3 nodes quick / <= 4 thorough, valid and invalid), deep simulated trees <= 6 nodes and simulated trees <= 9 nodes containing a duplicated non-trivial group (DupSubtree action) are rendered per bundled schema as base + 11 rewrites (2 respellings, lower/upper/mixed case, blank padding, 3 sibling reorderings at every level, combined) and the real validator must return the same multiset of error codes for all, and TAG_EXPRESSION_REPEATED for every rendering of a duplicated group",
+   note="bounded tree size; values/units kept verbatim; quick validates a rotating quarter of (tree, schema) pairs",
+   technique="TLA+ spec + TLC model checking (parameterised INSTANCE); metamorphic replay of TLC-generated trees"),
 }
 ALL = ["C%02d" % i for i in range(1, 21)]
 m = {
